@@ -11,11 +11,191 @@ import time
 import z3
 
 
+def _hard_worker(func, conn):
+    try:
+        while True:
+            item = conn.recv()
+            if item is None:
+                return
+            idx, task = item
+            try:
+                res = func(task)
+            except BaseException as ex:       # a solver crash is an answer ("unknown"), not a reason to stop
+                res = ("__error__", repr(ex))
+            conn.send((idx, res))
+    except (EOFError, KeyboardInterrupt):
+        return
+
+
+def hard_map(func, tasks, procs, hard_s, on_timeout):
+    """map with a HARD wall-clock limit per task: z3 occasionally ignores its own timeout; a worker that overruns is
+    killed and replaced, its task gets on_timeout(task).  Yields (task index, result) as results arrive."""
+    from multiprocessing.connection import wait
+    ctx = mp.get_context("fork")
+    todo = list(enumerate(tasks))[::-1]
+    workers = []
+
+    def spawn():
+        parent, child = ctx.Pipe()
+        p = ctx.Process(target=_hard_worker, args=(func, child), daemon=True)
+        p.start()
+        child.close()
+        return {"p": p, "c": parent, "idx": None, "t": 0.0}
+    n = max(1, min(procs, len(tasks)))
+    workers = [spawn() for _ in range(n)]
+    done = 0
+    try:
+        while done < len(tasks):
+            for w in workers:
+                if w["idx"] is None and todo:
+                    idx, task = todo.pop()
+                    w["idx"], w["t"] = idx, time.time()
+                    w["c"].send((idx, task))
+            busy = [w for w in workers if w["idx"] is not None]
+            ready = wait([w["c"] for w in busy], timeout=0.5) if busy else []
+            for w in busy:
+                if w["c"] in ready:
+                    try:
+                        idx, res = w["c"].recv()
+                    except (EOFError, OSError):
+                        idx, res = w["idx"], ("__error__", "worker died")
+                        w["p"].terminate()
+                        workers[workers.index(w)] = spawn()
+                    if isinstance(res, tuple) and res and res[0] == "__error__":
+                        res = on_timeout(tasks[idx], res[1])
+                    w["idx"] = None
+                    done += 1
+                    yield idx, res
+                elif time.time() - w["t"] > hard_s:
+                    idx = w["idx"]
+                    w["p"].terminate()
+                    w["p"].join(timeout=2)
+                    if w["p"].is_alive():
+                        w["p"].kill()
+                    workers[workers.index(w)] = spawn()
+                    done += 1
+                    yield idx, on_timeout(tasks[idx], f"hard limit of {hard_s:.0f}s exceeded (solver ignored its timeout)")
+    finally:
+        for w in workers:
+            try:
+                w["c"].send(None)
+            except Exception:
+                pass
+        for w in workers:
+            w["p"].join(timeout=1)
+            if w["p"].is_alive():
+                w["p"].terminate()
+
+
+def _has_quantifier(e):
+    todo, seen = [e], set()
+    while todo:
+        x = todo.pop()
+        if x.get_id() in seen:
+            continue
+        seen.add(x.get_id())
+        if z3.is_quantifier(x):
+            return True
+        todo.extend(x.children())
+    return False
+
+
+def _ground_first(smt2, timeout_ms):
+    """Tier 0: the query restricted to its quantifier-free hypotheses (a subset of the hypotheses: `unsat` here is
+    `unsat` of the full query).  Many obligations (frames, preconditions, counting steps) need no quantified fact,
+    and the quantified ones only slow the solver down."""
+    try:
+        s = z3.Solver()
+        s.from_string(smt2)
+        a = s.assertions()
+        g = [x for x in a if not _has_quantifier(x)]
+        if len(g) == len(a):
+            return False
+        s0 = z3.Solver()
+        s0.set("timeout", min(timeout_ms, 3000))
+        for x in g:
+            s0.add(x)
+        return s0.check() == z3.unsat
+    except Exception:
+        return False
+
+
+_STOP_SYMS = {"birth", "typeof", "lkind", "lowner"}
+
+
+def _symbols(e):
+    out, todo, seen = set(), [e], set()
+    while todo:
+        x = todo.pop()
+        if x.get_id() in seen:
+            continue
+        seen.add(x.get_id())
+        if z3.is_quantifier(x):
+            todo.append(x.body())
+            continue
+        if z3.is_app(x):
+            if x.decl().kind() == z3.Z3_OP_UNINTERPRETED:
+                out.add(x.decl().name())
+            todo.extend(x.children())
+    return out
+
+
+def _relevant_first(smt2, timeout_ms):
+    """Tier 1: all quantifier-free hypotheses plus the quantified hypotheses that share a (not ubiquitous) symbol
+    with the goal.  Again a subset of the hypotheses, so `unsat` carries over to the full query."""
+    try:
+        s = z3.Solver()
+        s.from_string(smt2)
+        a = list(s.assertions())
+        if len(a) < 2:
+            return False
+        goal, hyps = a[-1], a[:-1]
+        info = [(h, _has_quantifier(h)) for h in hyps]
+        qh = [(h, _symbols(h)) for h, q in info if q]
+        if not qh:
+            return False
+        freq = {}
+        for h in hyps:
+            for sy in _symbols(h):
+                freq[sy] = freq.get(sy, 0) + 1
+        lim = max(3, len(hyps) // 5)
+        rel = {x for x in _symbols(goal) if x not in _STOP_SYMS and freq.get(x, 0) <= lim}
+        chosen = [h for h, sy in qh if sy & rel]
+        if len(chosen) == len(qh):
+            return False
+        s1 = z3.Solver()
+        s1.set("timeout", min(timeout_ms, 4000))
+        for h, q in info:
+            if not q:
+                s1.add(h)
+        for h in chosen:
+            s1.add(h)
+        s1.add(goal)
+        return s1.check() == z3.unsat
+    except Exception:
+        return False
+
+
 def _solve_one(task):
     name, smt2, timeout_ms, want_model = task[:4]
     quick = len(task) > 4 and task[4]
     t0 = time.time()
     backend = "z3-5.1(py)"
+    if _ground_first(smt2, timeout_ms):
+        return (name, "unsat", "z3-5.1(py,ground hypotheses)", int((time.time() - t0) * 1000), None, "")
+    if _relevant_first(smt2, timeout_ms):
+        return (name, "unsat", "z3-5.1(py,relevant hypotheses)", int((time.time() - t0) * 1000), None, "")
+    try:
+        # Tier 2: the full query with cheap instances only (eager threshold 3): avoids flooding by the quantified
+        # facts that have nothing to do with the goal
+        se = z3.Solver()
+        se.set("timeout", min(timeout_ms, 4000))
+        se.set("qi.eager_threshold", 3.0)
+        se.from_string(smt2)
+        if se.check() == z3.unsat:
+            return (name, "unsat", "z3-5.1(py,qi.eager_threshold=3)", int((time.time() - t0) * 1000), None, "")
+    except Exception:
+        pass
     if quick:
         try:
             s = z3.Solver()
@@ -157,16 +337,21 @@ def _discharge_flat(obligations, timeout_ms=60000, procs=None, want_model=True, 
     results = {o.name: ("unsat", "z3-simplify", 0, None, "") for o in obligations if getattr(o, "trivial", False)}
     if not tasks:
         return results
-    ctx = mp.get_context("fork")
-    with ctx.Pool(procs) as pool:
-        for r in pool.imap_unordered(_solve_one, tasks, chunksize=1):
-            results[r[0]] = r[1:]
-        retry = [t for t in tasks if results[t[0]][0] == "unknown"] if not quick else []
-        if retry:
-            for r in pool.imap_unordered(_retry_other_backends, retry, chunksize=1):
-                if r[1] != "unknown":
-                    old = results[r[0]]
-                    results[r[0]] = (r[1], r[2], old[2] + r[3], r[4], r[5])
+    # every tier/retry inside _solve_one has its own solver timeout; the hard limit is their sum plus slack
+    hard_s = (timeout_ms / 1000.0) * (2 if quick else 9) + 30
+
+    def gave_up(task, why):
+        return (task[0], "unknown", "z3-5.1(py)", int(hard_s * 1000), None, why)
+    for _i, r in hard_map(_solve_one, tasks, procs, hard_s, gave_up):
+        results[r[0]] = r[1:]
+    retry = [t for t in tasks if results[t[0]][0] == "unknown"] if not quick else []
+    if retry:
+        def gave_up2(task, why):
+            return (task[0], "unknown", "all", 0, None, why)
+        for _i, r in hard_map(_retry_other_backends, retry, procs, 2 * (timeout_ms / 1000.0) + 30, gave_up2):
+            if r[1] != "unknown":
+                old = results[r[0]]
+                results[r[0]] = (r[1], r[2], old[2] + r[3], r[4], r[5])
     return results
 
 
@@ -224,17 +409,19 @@ def cover_tasks(covers):
     return tasks
 
 
-def check_covers(covers, procs=None):
-    """Vacuity guard -> names of paths whose path condition is contradictory because of assumed contract clauses
-    (callee postconditions, invariants, lemma conclusions): everything proved on such a path is void."""
+def run_cover_tasks(tasks, procs=None):
+    """-> names of vacuous paths (hard limit per cover: a cover the solver cannot decide is not vacuous)"""
     procs = procs or min(16, os.cpu_count() or 4)
-    tasks = cover_tasks(covers)
     bad = []
     if not tasks:
         return bad
-    ctx = mp.get_context("fork")
-    with ctx.Pool(procs) as pool:
-        for name, r in pool.imap_unordered(_cover_one, tasks, chunksize=4):
-            if r == "vacuous":
-                bad.append(name)
+    for _i, (name, r) in hard_map(_cover_one, tasks, procs, 60, lambda task, why: (task[0], "ok")):
+        if r == "vacuous":
+            bad.append(name)
     return bad
+
+
+def check_covers(covers, procs=None):
+    """Vacuity guard -> names of paths whose path condition is contradictory because of assumed contract clauses
+    (callee postconditions, invariants, lemma conclusions): everything proved on such a path is void."""
+    return run_cover_tasks(cover_tasks(covers), procs)
